@@ -98,8 +98,24 @@ Proof.
       * pose proof (nsn_pend p (w_disk w) a) as Hpe.
         destruct (new_sequence_number p (w_disk w) a) as [[p1 d1] [v|e|]]; cbn [reused_of acc_of w_proc mkw]; rewrite !app_nil_r;
           (split; [|split; [exact Hsub|exact Hnd]]); try exact I; rewrite Hpe, Epe; exact I.
-    + destruct Hok.
-    + destruct Hok.
+    + pose proof (nsn_fails_same p (w_disk w) k) as Hpe.
+      destruct (new_sequence_number_fails p (w_disk w) k) as [[p1 d1] [v|e|]]; destruct Hpe as (_ & _ & Hpe & _);
+        cbn [reused_of acc_of w_proc mkw]; rewrite !app_nil_r; (split; [|split; [exact Hsub|exact Hnd]]); try exact I; rewrite Hpe; exact HPd.
+    + pose proof (unprotect_fails_cases p (w_disk w) k r) as Hc. cbv zeta in Hc.
+      destruct (strikes (uc p) (snd (unprotect_request (uc p) r)) && wpers p).
+      * rewrite Hc in *. cbn [reused_of acc_of w_proc mkw pend set_pend]. rewrite ?app_nil_r. split; [exact I|split; [exact Hsub|exact Hnd]].
+      * rewrite Hc in *. clear Hc.
+        destruct HP as (Hsz & He & Hw & _).
+        pose proof (WinOK_ctxinv (w_size w) A (uc p) Hs Hsz Hw) as HI.
+        pose proof (unprotect_outcome p (w_disk w) None r) as Ho.
+        destruct (unprotect p (w_disk w) None r) as [[p1 d1] [o|e|]]; cbn [reused_of w_proc mkw pend set_pend]; rewrite ?app_nil_r.
+        -- destruct Hstep as (_ & Hnew). split; [|split; [intros n Hn; apply Hsub'; exact Hn|exact Hnd]].
+           destruct (pend_of (uc p) r o) as [[n [|]]|] eqn:Epo; try exact I.
+           subst o. destruct (pend_of_true (uc p) r n HI Hok Epo) as (Hacc & -> & _). rewrite Hacc in *.
+           cbn [acc_of] in *. split; [apply in_or_app; right; left; reflexivity|].
+           intros Hin. apply (Hnew (seqno r)); [left; reflexivity|apply Hsub; exact Hin].
+        -- cbn [acc_of]. rewrite ?app_nil_r. split; [exact I|split; [exact Hsub|exact Hnd]].
+        -- cbn [acc_of]. rewrite ?app_nil_r. split; [exact I|split; [exact Hsub|exact Hnd]].
   - destruct ev as [a|n a|r a|a| |start lim echo|a|k|r k]; cbn [reused_of acc_of]; rewrite !app_nil_r;
       try (rewrite Ep; split; [exact I|split; [exact Hsub|exact Hnd]]).
     cbn [w_proc mkw load pend]. split; [exact I|split; [exact Hsub|exact Hnd]].
